@@ -87,6 +87,34 @@ def run_shard(binary, test, checks, seed, outpath, timeout_s, extra_env, cwd, ti
     return dict(rc=rc, out=out, wall=time.time() - t0, outpath=outpath, seed=seed, test=test, checks=checks)
 
 
+def run_fuzz(module, target, seconds, workdir, tier):
+    """native go fuzzing of one target for a wall-clock budget; returns dict(execs, interesting, fails[], pendings[], rc, out)"""
+    import re
+    moddir = os.path.join(VERIF, "h", module)
+    fdir = os.path.join(workdir, f"fuzz-{target}")
+    os.makedirs(fdir, exist_ok=True)
+    cache = os.path.join(workdir, f"fuzzcache-{target}")
+    env = goenv({"VERIF_FUZZ_DIR": fdir, "VERIF_TMP": workdir, "VERIF_TIER": tier})
+    cmd = netns_prefix() + ["go", "test", "-tags", "verif", "-run", "^$", "-fuzz", f"^{target}$", f"-fuzztime={seconds}s",
+                            f"-test.fuzzcachedir={cache}", "-timeout", f"{seconds + 600}s", "."]
+    try:
+        p = subprocess.run(cmd, cwd=moddir, env=env, capture_output=True, text=True, timeout=seconds + 900, errors="replace")
+        rc, out = p.returncode, p.stdout + p.stderr
+    except subprocess.TimeoutExpired as e:
+        rc, out = -9, "[driver] fuzz run timed out"
+    # the engine writes its crasher under testdata/fuzz/<target>/ of the package: our own record is in fdir, drop the engine's copy
+    shutil.rmtree(os.path.join(moddir, "testdata", "fuzz", target), ignore_errors=True)
+    for d in (os.path.join(moddir, "testdata", "fuzz"), os.path.join(moddir, "testdata")):
+        try:
+            os.rmdir(d)
+        except OSError:
+            pass
+    execs = [int(x) for x in re.findall(r"execs: (\d+)", out)]
+    inter = [int(x) for x in re.findall(r"new interesting: \d+ \(total: (\d+)\)", out)]
+    return dict(rc=rc, out=out, execs=max(execs) if execs else 0, interesting=max(inter) if inter else 0,
+                fails=sorted(glob.glob(os.path.join(fdir, "fail-*.json"))), pendings=sorted(glob.glob(os.path.join(fdir, "pending-*.json"))))
+
+
 def replay_one(binary, path, cwd, extra_env=None, timeout_s=120):
     env = goenv(extra_env)
     env["VERIF_REPLAY"] = path
@@ -299,6 +327,33 @@ def run(prop, spec, a, base_seed, workdir, rundir, t_start):
                 inconclusive.append(f"shard {r['test']} seed={r['seed']} exited rc={r['rc']} without a recorded failure")
                 log(r["out"][-3000:])
 
+    # ---- native fuzzing (thorough tier only): coverage-guided search with the same oracles
+    fuzz_cov = {}
+    if a.tier == "thorough" and not a.only:
+        for fz in spec.get("fuzz", []):
+            secs = max(10, int(fz["seconds"] * a.scale))
+            fr = run_fuzz(fz["module"], fz["target"], secs, workdir, a.tier)
+            log(f"[fuzz] {fz['target']}: {fr['execs']} executions in {secs}s, corpus {fr['interesting']}, rc={fr['rc']}")
+            fuzz_cov[fz["target"]] = {"executions": fr["execs"], "corpus_entries_with_new_coverage": fr["interesting"], "budget_s": secs}
+            for fp in fr["fails"]:
+                violations.append(save_failure(prop, json.load(open(fp))))
+            if fr["rc"] != 0 and not fr["fails"]:
+                b = bins.get((fz["module"], False)) or build(fz["module"], False, workdir)
+                confirmed = False
+                for pp in fr["pendings"]:
+                    rec = json.load(open(pp))
+                    tmp = os.path.join(workdir, "fuzz-pending-replay.json")
+                    json.dump(rec, open(tmp, "w"))
+                    rr = [replay_one(b, tmp, rundir) for _ in range(2)]
+                    if all(x["status"] == "fail" for x in rr):
+                        rec["sig"] = "crash:" + crash_sig(rr[-1]["out"])
+                        rec["msg"] = rr[-1]["out"][-3000:]
+                        violations.append(save_failure(prop, rec))
+                        confirmed = True
+                if not confirmed:
+                    inconclusive.append(f"fuzz target {fz['target']} exited rc={fr['rc']} without a reproducible failing input")
+                    log(fr["out"][-3000:])
+
     evaluations = sum(c["evaluations"] for c in checks.values())
     distinct = sum(len(h) for h in hashes.values())
     for name, c in checks.items():
@@ -348,6 +403,8 @@ def run(prop, spec, a, base_seed, workdir, rundir, t_start):
     }
     for k, v in (spec.get("coverage_extra") or {}).items():
         ev["coverage"][k] = v
+    if fuzz_cov:
+        ev["coverage"]["native_fuzz"] = fuzz_cov
     os.makedirs(os.path.join(VERIF, "evidence"), exist_ok=True)
     tmp = os.path.join(VERIF, "evidence", f".{prop}.json.tmp{os.getpid()}")
     json.dump(ev, open(tmp, "w"), indent=1, ensure_ascii=True)
